@@ -195,8 +195,9 @@ def driver_leg(out, n):
         evs2 = days[1]
         mn, mx = min(e["st"] for e in evs2), max(e["en"] for e in evs2)
         lo, hi = mn + buf * MIN, mx - buf * MIN
-        if lo >= hi:
-            continue
+        mn1, mx1 = min(e["st"] for e in days[0]), max(e["en"] for e in days[0])
+        if lo >= hi or mn1 + buf * MIN >= mx1 - buf * MIN:
+            continue        # a day whose extent is shorter than two buffers legitimately raises "time buffer too large"
         ids2 = {e["id"] for e in evs2}
         dangling = {e["job"] for e in evs2 if e["par"] is not None and e["par"] not in ids2}
         keep = {e["job"] for e in evs2 if e["job"] not in dangling and (lo <= e["st"] <= hi or lo <= e["en"] <= hi)}
